@@ -37,7 +37,7 @@ CLIENT_NOTE = ("Trusted: Coq kernel + VM; the hand-written model Model/AuditClie
                "results, requests on the wire, socket closes and the number of receives consumed must equal the model's); Spec/Uapi.v (UAPI numbers and struct audit_status layout, hand-written); translator for constants/offsets. No axioms.")
 CLAIMS.update({
     "C08": dict(text="Proof: for every client state and every kernel script in the property's fault model (predicate answers: unbounded noise of unsolicited records and runs of up to nine transient failures, then the ACK), the Set* commands in WaitForReply mode, AddRule, DeleteRule and GetStatus return nil / the status exactly when errno = 0 and otherwise an error carrying that errno; a foreign sequence number is never success. "
-                     "GetRules returns exactly the rule payloads sent for the request (C08_get_rules_verdict). Partial: DeleteRules (GetRules followed by one DeleteRule per rule) is decided on every implementation run by the independent script reading of Check/ChkClient.v and by model agreement.",
+                     "GetRules returns exactly the rule payloads sent for the request (C08_get_rules_verdict). DeleteRules (the listing followed by one delete request per rule): C08_delete_rules_verdict (the count when every delete is acknowledged with 0) and C08_delete_all_first_error (the first delete the kernel rejects is the verdict, later rules are not touched); it is also decided on every implementation run by the independent script reading of Check/ChkClient.v.",
                 note=CLIENT_NOTE + " PARTIAL: DeleteRules lacks a composed theorem (checked on traces).", technique="Coq proofs over all scripts in the fault model + simulated-kernel correspondence", design="6 C08"),
     "C16": dict(text="Proof: C16_setters (every setter x every value x both modes x every state: one AUDIT_SET, REQUEST|ACK, full-size UAPI struct with exactly the mask bit and value), C16_from_wire (every buffer: EOF below 32 bytes, else the eleven UAPI words with zero fill, trailing bytes ignored), C16_layout and C16_constants over generated offsets/constants. "
                      "The failure-mode constants are a known finding (all 0), stated as a two-way disjunction so that a third value fails.",
